@@ -32,6 +32,26 @@ device ecu { services: [Control, Other], }
 '''
 
 
+MANY_DEVICES_SCHEMA = '''version: "3"
+
+enum Kind { A = 0, B = 1, C = 2, D = 3, }
+struct Ma { a @0: u8, k @1: Kind, }
+struct Mb { b @0: i16, }
+struct Mc { c @0: u24, }
+struct Md { d @0: f32, }
+struct Me { e @0: u1, f @1: u7, }
+impl can for Ma { id: 1, device: "inverter", }
+impl can for Mb { id: 2, device: "bms", }
+impl can for Mc { id: 3, device: "dash", }
+impl can for Md { id: 4, device: "charger", }
+impl can for Me { id: 5, device: "vcu", bus: "aux", }
+impl can for Ma as MaAux { id: 6, device: "logger", bus: "aux", }
+impl uart for Mb { port: 1, }
+impl spi for Mc { cs: 2, }
+impl lin for Md { nad: 3, }
+'''
+
+
 def digest(files):
     return hashlib.sha1(json.dumps(sorted(files.items())).encode()).hexdigest()[:20]
 
@@ -67,6 +87,9 @@ def run_c17(tier, seed):
     with open(os.path.join(sdir, "services.fcp"), "w") as f:
         f.write(SERVICE_SCHEMA)
     pool["gen:services"] = os.path.join(sdir, "services.fcp")
+    with open(os.path.join(sdir, "devices.fcp"), "w") as f:
+        f.write(MANY_DEVICES_SCHEMA)
+    pool["gen:devices"] = os.path.join(sdir, "devices.fcp")
     for i in range(4 if tier == "quick" else 20):
         sch = rand_can_schema(rng)
         p = os.path.join(sdir, "can%d.fcp" % i)
